@@ -110,7 +110,16 @@ func factsRouting() {
 			unrec("owner_fn_shape", "string", "getPartitionForId returns "+ret)
 		}
 	}
-	// (3) every write path goes through the owner function with the item's id
+	// (2b) the positional partition slice follows the catalogue entry: position i holds meta.Partitions[i]
+	if txt, fd := bodyText("storage/dataset.go", "", "newDataset"); fd == nil {
+		unrec("partitions_in_catalogue_order", "bool", "newDataset not found")
+	} else {
+		known("partitions_in_catalogue_order", "bool", b(strings.Contains(txt, "partitions: make([]*partition, meta.GetPartitionCount())") &&
+			strings.Contains(txt, "for i := 0; i < int(meta.GetPartitionCount()); i++ { pid, err := uuid.FromBytes(meta.Partitions[i].GetId())") &&
+			strings.Contains(txt, "partition := newPartition(pid, meta.Partitions[i], d, raftWalDB, raftTransport, datasetManager) d.partitions[i] = partition d.partitionsMap[pid] = partition }") &&
+			strings.Count(txt, "d.partitions[") == 1 && !strings.Contains(txt, "append(")),
+			"newDataset: d.partitions[i] is the partition of meta.Partitions[i], filled by index in one loop")
+	}
 	ok := true
 	why := ""
 	for _, fn := range []string{"Insert", "Update", "Remove"} {
